@@ -64,6 +64,12 @@ def _decode_read(t):
         r = _range_consts(x[2][0])
         if r and r[0] is not None:
             return r[0], r[1], _int_ty(x[1]), adj
+        # an open-ended view (`buf.split_at(8).1`, `&buf[8..]`) converted to [u8; N]: the conversion only succeeds
+        # for exactly N bytes, so the field is lo .. lo + N
+        bv = byteview(x[2][0])
+        size = {"u8": 1, "u16": 2, "u32": 4, "u64": 8, "i64": 8, "usize": 8}.get(_int_ty(x[1]))
+        if bv and bv[2] is None and bv[1] > 0 and size:
+            return bv[1], bv[1] + size, _int_ty(x[1]), adj
         # from_le_bytes of a whole small array (get_u64 style)
         return None
     if x[0] == "index" and const_eval(x[2]) is not None:
@@ -100,6 +106,33 @@ def writer_fields_buffer(fn):
             if src[0] == "call" and src[1].endswith("to_le_bytes"):
                 name, adj = _source_name(strip(src[2][0]))
                 out[name] = (dst[0], dst[1], _int_ty(src[1]), adj)
+    # element-wise copy: for (dst, src) in buf[a..].iter_mut().zip(x.to_le_bytes()) { *dst = src }
+    import elems
+    from panic_rules import _static_len
+    for n, ds in fn.defs().items():
+        for kind, payload, bi, si, place in ds:
+            if kind != "stmt" or bi not in fn.cfg() or len(place["proj"]) != 1 or place["proj"][0]["k"] != "deref":
+                continue
+            tr = R.local(place["local"])
+            tr = tr[1] if tr[0] == "partial" else tr
+            de, se = elems.elem_of(tr), elems.elem_of(R.rvalue(payload))
+            if de is None or se is None or de[1] or se[1] or not elems.same_position(de, se) or de[2][0] != "next":
+                continue
+            src = strip_casts(se[0])
+            while src[0] == "call" and src[1].rsplit("::", 1)[-1] in ("into_iter", "iter") and src[2]:
+                src = strip_casts(src[2][0])
+            dv = de[0]
+            while dv[0] == "call" and dv[1].rsplit("::", 1)[-1] in ("iter_mut",) and dv[2]:
+                dv = dv[2][0]
+            bv = byteview(dv)
+            if not (src[0] == "call" and src[1].endswith("to_le_bytes") and _int_ty(src[1])) or bv is None:
+                continue
+            size = {"u8": 1, "u16": 2, "u32": 4, "u64": 8, "i64": 8, "usize": 8}[_int_ty(src[1])]
+            end = bv[2] if bv[2] is not None else _static_len(bv[0])
+            if end is None:
+                raise Unusable("layout: %s copies header bytes element-wise into a view of unknown length" % short(fn.path))
+            name, adj = _source_name(strip(src[2][0]))
+            out[name] = (bv[1], min(end, bv[1] + size), _int_ty(src[1]), adj)      # zip stops at the shorter side
     # the whole header as one array literal: [ID, flags, len[0], len[1], ...]
     for bi in fn.cfg():
         for st in fn.blocks[bi]["stmts"]:
